@@ -99,6 +99,8 @@ func Main[I any](h Harness[I]) {
 			fmt.Fprintln(os.Stderr, "encode:", err)
 			os.Exit(2)
 		}
+		// flush per case: a fatal runtime error (out of memory, ...) must not lose the cases already run
+		out.Flush()
 		if timeouts >= 3 {
 			out.Flush()
 			fmt.Fprintln(os.Stderr, "three cases timed out; stopping the run")
